@@ -102,6 +102,16 @@ pub fn check(t: &Trace<'_>, out: &mut CaseOut) -> bool {
     if !cinfo.connack_consumed {
         out.violations.push(viol("C12", "C12/inbound-residue", format!("conn {}: connect() succeeded without consuming the CONNACK", conn)));
     }
+    // nothing of an earlier connection may be written here: in particular no DISCONNECT that a
+    // cancelled disconnect() on an earlier handle had begun
+    if c.out.packets.iter().any(|p| matches!(p.pkt, CPacket::Disconnect { .. })) {
+        out.violations.push(viol("C12", "C12/outbound-residue/DISCONNECT", format!("conn {}: a DISCONNECT was written on the fresh connection although disconnect() was not called on it", conn)));
+    }
+    // the healthy transport and conformant broker give the handle no reason to die
+    if let Some(o) = t.log.ops.iter().find(|o| o.conn == Some(conn) && o.step > cop.step && matches!(o.outcome, Outcome::Err(ErrRepr::Disconnected | ErrRepr::Transport(_) | ErrRepr::InvalidPacket))) {
+        out.violations.push(viol("C12", "C12/not-usable/handle-died", format!("after the reconnect {} returned {:?} although transport and broker are healthy", o.kind, o.outcome)));
+        return nontrivial;
+    }
     // fully usable afterwards (only for configurations that can hold the round-trip packets)
     if t.log.cfg.tx >= 64 && t.log.cfg.rx >= 32 {
         let after: Vec<(usize, &OpRec)> = t.log.ops.iter().enumerate().filter(|(_, o)| o.conn == Some(conn) && o.step > cop.step).collect();
